@@ -29,6 +29,7 @@ let parse (s : string) : sexp =
   go ()
 
 let atom = function Atom a -> a | List _ -> failwith "expected atom"
+let atom_opt = function Atom a -> Some a | List _ -> None
 let head = function Atom a -> a | List (h :: _) -> atom h | List [] -> failwith "empty list"
 let args = function Atom _ -> [] | List (_ :: r) -> r | List [] -> []
 let int_of s = int_of_string (atom s)
@@ -41,6 +42,7 @@ let int_of_z = function Z0 -> 0 | Zpos p -> int_of_pos p | Zneg p -> - (int_of_p
 let rec nat_of_int n = if n <= 0 then O else S (nat_of_int (n - 1))
 let rec int_of_nat = function O -> 0 | S n -> 1 + int_of_nat n
 let zarg s = z_of_int (int_of s)
+let z_of_int_val n = VZ (z_of_int n)
 let narg s = nat_of_int (int_of s)
 
 let rec val_of (s : sexp) : val0 =
